@@ -154,6 +154,26 @@ def explore(ctx):
                     cat[rng.choice(['x_cen', 'y_cen'])][r_] = np.nan
                 info['nan_rows'] = True
             v = make_viewer(d)
+            # the i-th drawn segment is a segment of the i-th listed structure (a pick event carries i): the vertical
+            # one at the structure's position from its base to its height - also when that is a single point -, the
+            # horizontal one at its height
+            segs = [np.asarray(sg, dtype=float) for sg in v.lines.get_segments()]
+            pos = v.plotter._cached_positions       # sorted with reverse=True by the viewer; the layout itself is C18's business
+            if len(segs) != len(v.lines.structures):
+                fails.append('%d segments drawn for %d listed structures' % (len(segs), len(v.lines.structures)))
+            else:
+                nflat = 0
+                for i_, (sg, s_) in enumerate(zip(segs, v.lines.structures)):
+                    bot = float(s_.parent.height) if s_.parent is not None else float(s_.vmin)
+                    top = float(s_.height)
+                    nflat += top == bot
+                    vert = sg.shape == (2, 2) and sg[0][0] == sg[1][0] == pos[s_] and sorted([sg[0][1], sg[1][1]]) == [bot, top]
+                    horiz = s_.is_branch and sg.shape == (2, 2) and sg[0][1] == sg[1][1] == top
+                    if not (vert or horiz):
+                        fails.append('segment %d %s is not a segment of structure %d listed at that index (position %r, base %r, height %r)'
+                                     % (i_, sg.tolist(), s_.idx, float(pos[s_]), bot, top))
+                        break
+                ctx.count('flat_structures_drawn', nflat)
             from astrodendro.scatter import Scatter
             scs = [Scatter(d, v.hub, cat, 'x_cen', 'y_cen') for _ in range(rng.choice([1, 1, 2]))]
             for sc_ in scs:
